@@ -14,6 +14,7 @@ import (
 	"time"
 
 	"github.com/couchbase/gocbcore/v10"
+	"github.com/couchbase/gocbcore/v10/memd"
 
 	dcp "github.com/Trendyol/go-dcp"
 	"github.com/Trendyol/go-dcp/config"
@@ -25,6 +26,7 @@ import (
 
 	"verifharness/fakes"
 	"verifharness/gal"
+	"verifharness/simnode"
 )
 
 func init() {
@@ -200,6 +202,7 @@ func runC02(c *Ctx) {
 	im := []string{"Base.Bytes", "Model.Stream", "Model.Backends", "Corr.CorrStream", "Corr.CorrC02"}
 	c.Emit("file", "metadata.NewFSMetadata save/load vs Backends.file_save/file_load", im,
 		"option (list (N * doc)) * option (list (N * doc) * list N) * list N * (list (N * doc) * bool)", "chk_file", fc, fr, 300)
+	runC02Wire(c)
 	c.Emit("ro", "metadata.NewReadMetadata vs Backends.ro_save", im,
 		"option (list (N * doc)) * (list (N * doc) * list N) * list N * (list (N * doc) * bool)", "chk_ro", rc, rr, 300)
 }
@@ -497,4 +500,132 @@ func runC15(c *Ctx) {
 	c.Count("membership-type-switch")
 	c.Emit("startup", "stream.Open outcome in a child process vs Backends.startup", []string{"Base.Bytes", "Model.Stream", "Model.Backends", "Corr.CorrStream", "Corr.CorrC15"},
 		"cfg * list (N * doc) * N * N * server * faults * observed", "chk_startup", cs, rs, 60)
+}
+
+// runC02Wire drives the real cbMetadata (xattr checkpoint documents) against the simulated node.
+func runC02Wire(c *Ctx) {
+	rng := c.Rng
+	var cs []gal.Term
+	var rs []string
+	for i := 0; i < c.Pick(40, 400); i++ {
+		group := []string{"g", "grp-1", "a:b", "x_y", "Z9"}[rng.Intn(5)]
+		cfg := &config.Dcp{}
+		cfg.Metadata.Type = "couchbase"
+		cfg.Dcp.Group.Name = group
+		cfg.Checkpoint.Timeout = 2 * time.Second
+		w, err := newWire(cfg, simnode.Config{NumVBuckets: 16})
+		if err != nil {
+			c.Violate("harness", "cannot start the simulated node: "+err.Error(), nil)
+			return
+		}
+		md := couchbase.NewCBMetadata(w.Client, cfg)
+		randDocs := func() map[uint16]SDoc {
+			m := map[uint16]SDoc{}
+			for k := 0; k < 1+rng.Intn(5); k++ {
+				m[uint16(rng.Intn(1024))] = SDoc{UUID: randU64(rng), Seq: randU64(rng), Start: randU64(rng), End: randU64(rng)}
+			}
+			return m
+		}
+		all := func(m map[uint16]SDoc) map[uint16]bool {
+			r := map[uint16]bool{}
+			for k := range m {
+				r[k] = true
+			}
+			return r
+		}
+		var init map[uint16]SDoc
+		if rng.Intn(3) > 0 {
+			init = randDocs()
+			if err := md.Save(toModelsDocs(init), all(init), ""); err != nil {
+				c.Violate("save-error", "cbMetadata.Save failed on the simulated node: "+err.Error(), nil)
+			}
+		}
+		dump := randDocs()
+		for vb := range init { // overlap with what is stored
+			if rng.Intn(2) == 0 {
+				dump[vb] = SDoc{UUID: randU64(rng), Seq: randU64(rng), Start: randU64(rng), End: randU64(rng)}
+			}
+		}
+		dm := map[uint16]bool{}
+		var dirty []uint64
+		for vb := range dump {
+			if rng.Intn(2) == 0 {
+				dm[vb] = true
+				dirty = append(dirty, uint64(vb))
+			}
+		}
+		sort.Slice(dirty, func(a, b int) bool { return dirty[a] < dirty[b] })
+		w.Node.ResetLog()
+		if err := md.Save(toModelsDocs(dump), dm, ""); err != nil {
+			c.Violate("save-error", "cbMetadata.Save failed on the simulated node: "+err.Error(), nil)
+		}
+		// keys of the documents written (mutations only), ascending by vBucket as the model lists them
+		written := map[string]bool{}
+		for _, r := range w.Node.Requests() {
+			if r.Opcode == memd.CmdSubDocMultiMutation || r.Opcode == memd.CmdSet {
+				written[string(r.Key)] = true
+			}
+		}
+		var keys []gal.Term
+		for _, vb := range dirty {
+			k := "_connector:cbgo:" + group + ":checkpoint:" + fmt.Sprint(vb)
+			if written[k] {
+				keys = append(keys, gal.Bytes([]byte(k)))
+				delete(written, k)
+			}
+		}
+		for k := range written {
+			c.Violate("unexpected-write", "cbMetadata.Save wrote a document it should not have: "+k, map[string]interface{}{"dirty": dirty, "group": group})
+			keys = append(keys, gal.Bytes([]byte(k)))
+		}
+		var vbs []uint16
+		seen := map[uint16]bool{}
+		for vb := range dump {
+			if rng.Intn(2) == 0 && !seen[vb] {
+				seen[vb] = true
+				vbs = append(vbs, vb)
+			}
+		}
+		for vb := range init {
+			if rng.Intn(2) == 0 && !seen[vb] {
+				seen[vb] = true
+				vbs = append(vbs, vb)
+			}
+		}
+		if v := uint16(rng.Intn(1024)); !seen[v] {
+			vbs = append(vbs, v)
+		}
+		sort.Slice(vbs, func(a, b int) bool { return vbs[a] < vbs[b] })
+		vbsT := make([]uint64, len(vbs))
+		for k, v := range vbs {
+			vbsT[k] = uint64(v)
+		}
+		st, ex, err := md.Load(vbs, "")
+		if err != nil {
+			c.Violate("load-error", err.Error(), nil)
+			w.Close()
+			continue
+		}
+		got := map[uint16]SDoc{}
+		for vb, d := range st.ToMap() {
+			got[vb] = SDoc{UUID: d.Checkpoint.VbUUID, Seq: d.Checkpoint.SeqNo, Start: d.Checkpoint.Snapshot.StartSeqNo, End: d.Checkpoint.Snapshot.EndSeqNo}
+		}
+		for _, vb := range vbs { // monitor: lossless, only flagged documents change
+			want, stored := init[vb]
+			if d, ok := dump[vb]; ok && dm[vb] {
+				want, stored = d, true
+			}
+			if stored && got[vb] != want {
+				c.Violate("lossy-roundtrip", fmt.Sprintf("vb %d: stored %+v, loaded %+v", vb, want, got[vb]), nil)
+			}
+		}
+		cs = append(cs, gal.Tuple(gal.Bytes([]byte(group)), docsTerm(init), gal.Tuple(docsTerm(dump), gal.NList(dirty)), gal.NList(vbsT), gal.Tuple(docsTerm(got), gal.Bool(ex)), gal.List(keys)))
+		rs = append(rs, J(map[string]interface{}{"kind": "cb-metadata", "group": group, "initial": init, "dump": dump, "dirty": dirty, "vbs": vbs, "loaded": got, "exist": ex}))
+		c.Eval(fmt.Sprint("cb", group, init, dump, dirty, vbs), true)
+		c.Count("cb-metadata-wire")
+		w.Close()
+	}
+	im := []string{"Base.Bytes", "Model.Stream", "Model.Backends", "Model.Keys", "Corr.CorrStream", "Corr.CorrC02"}
+	c.Emit("cb", "real cbMetadata Save/Load against the simulated node vs Backends.cb_save/cb_load and Keys.checkpoint_id", im,
+		"bytes * list (N * doc) * (list (N * doc) * list N) * list N * (list (N * doc) * bool) * list bytes", "chk_cb", cs, rs, 100)
 }
